@@ -158,8 +158,11 @@ def coqchk(prop):
             if t != "<none>": axioms.append(t)
         else:
             clean = False
-    allowed = {a.split(".")[-1] for a in ALLOWED_AXIOMS}
-    ok = clean and all(a.split(".")[-1] in allowed for a in axioms)
+    # `coqchk -o` lists the axioms of EVERY library in the closure (e.g. all of Floats/FloatAxioms.v and the Uint63 axioms as
+    # soon as PrimFloat is loaded for a vm_compute Example), whether or not a theorem uses them — the per-theorem gate is
+    # `Print Assumptions` above.  Here the criterion is the brief's: none declared by this development, i.e. every axiom /
+    # primitive belongs to the Coq standard library's namespace.
+    ok = clean and all(a.startswith("Coq.") for a in axioms)
     return ok, axioms, out
 
 # --------------------------------------------------------------------------- harness side
